@@ -55,6 +55,21 @@ def find_loops(toks, lo, hi):
     return res
 
 
+def _find_nth(src, a, nth, what):
+    """position of the nth (1-based) occurrence of a; nth=None requires uniqueness"""
+    n = src.count(a)
+    if nth is None:
+        if n != 1:
+            raise LostAnchor(f"{what} anchor occurs {n} times: {a[:60]!r}")
+        return src.find(a)
+    if nth < 1 or nth > n:
+        raise LostAnchor(f"{what} anchor #{nth} but it occurs {n} times: {a[:60]!r}")
+    pos = -1
+    for _ in range(nth):
+        pos = src.find(a, pos + 1)
+    return pos
+
+
 def apply_clauses(src, clauses):
     """clauses: list of dicts with key 'op'.  Applied in an order that keeps ordinals stable:
     rewrites first (they are literal), then everything else computed on one lex and applied
@@ -151,19 +166,14 @@ def apply_clauses(src, clauses):
                 edits.append((toks[e].end, toks[e].end, " }"))
         elif op in ("before", "after"):
             a = c["anchor"]
-            n = src.count(a)
-            if n != 1:
-                raise LostAnchor(f"{op} anchor occurs {n} times: {a[:60]!r}")
-            p = src.find(a)
+            p = _find_nth(src, a, c.get("nth"), op)
             if op == "after":
                 p += len(a)
             edits.append((p, p, "\n" + c["text"].rstrip() + "\n"))
         elif op == "after_stmt":
             # insert after the `;` that ends the statement starting at <anchor>
             a = c["anchor"]
-            if src.count(a) != 1:
-                raise LostAnchor(f"after_stmt anchor occurs {src.count(a)} times: {a[:60]!r}")
-            p = src.find(a)
+            p = _find_nth(src, a, c.get("nth"), op)
             k0 = next((k for k, t in enumerate(toks) if t.start == p), None)
             if k0 is None:
                 raise LostAnchor("after_stmt anchor not at a token start")
